@@ -120,3 +120,15 @@ Example independent_instance :
   let s2 := final 2 0 [] (([OConsVal 1 4 7] ++ [OAssign 0 1]) ++ [OSetVal 1 9; OClear 1]) in
   aslot (abs s1) (hslot 0) = Some (false, 4, 7) /\ aslot (abs s2) (hslot 0) = Some (false, 4, 7) /\ aslot (abs s2) (hslot 1) = None.
 Proof. vm_compute. repeat split; reflexivity. Qed.
+
+(* ---- an observation outside the property's preconditions (see notes/C20.md) ----
+   ValueMap::clear() does not know about a NotifiedValue that has handed its object to the map (value_.address keeps pointing
+   to it): parsing that option again writes through the stale address.  In the model: the map is cleared but the binding
+   flag stays; the next OParse finds no heap object in the entry and raises the error flag.  (The histories of the theorems
+   above reset the binding together with the entry, which is what a client has to do: replace the NotifiedValue.) *)
+Definition stale_clear (H M : nat) (s : st) : st :=
+  set_pres (repeat false M) (fold_left (fun a n => p_clear (S (H + n)) a) (seq 0 M) s).
+Lemma notified_value_after_map_clear_errs :
+  let s := final 0 1 [7] [OParse 0 5 1] in
+  err s = false /\ err (stale_clear 0 1 s) = false /\ err (snd (step 0 1 [7] (stale_clear 0 1 s) (OParse 0 6 1))) = true.
+Proof. vm_compute. repeat split; reflexivity. Qed.
